@@ -74,3 +74,43 @@ def stripped(out):
     """stdout without the progress percentages."""
     import re
     return re.sub(r'\[\s*[0-9.]+%\]\x08+', '', out)
+
+class _ProbeDone(Exception):
+    pass
+
+def probe_reads(tape, start, cfg, outfile, extra, gap):
+    """Load `tape` on the Python engine and record, for every read of the EAR port that starts within `gap`
+    T-states after the edge that begins the (unique) pulse of length `gap`, the clock at entry and at exit
+    (they differ when an accelerator fast-forwards).  -> (E0, [(entry T, exit T)...]) or (None, []).
+    The seam is LoadTracer._read_port, which builds the tracer's read_port closure."""
+    from skoolkit import loadtracer
+    info = {'e0': None}
+    log = []
+    orig = loadtracer.LoadTracer._read_port
+    def patched(self):
+        f = orig(self)
+        edges = self.edges
+        for j in range(len(edges) - 1):
+            if edges[j + 1] - edges[j] == gap:
+                info['e0'] = edges[j]
+                break
+        e0 = info['e0']
+        def g(registers, port):
+            t0 = registers[25]
+            r = f(registers, port)
+            if e0 is not None and port & 0xFF == 0xFE and t0 >= e0:
+                if t0 > e0 + gap + 500:
+                    raise _ProbeDone('PROBE-DONE')
+                log.append((t0, registers[25]))
+            return r
+        return g
+    loadtracer.LoadTracer._read_port = patched
+    try:
+        try:
+            load(tape, start, cfg, outfile, extra)
+        except ToolError as e:
+            if 'PROBE-DONE' not in str(e):
+                raise
+    finally:
+        loadtracer.LoadTracer._read_port = orig
+    return info['e0'], log
